@@ -82,6 +82,15 @@ CHECKS = {
          "stop()/start() arriving before, during and at the end of a wait after every script prefix.",
          "Virtual time; worker body run synchronously (Event.wait is its only blocking point); frame period taken from the implementation within 1 us.",
          "DESIGN.md 2/C09", "world"),
+ "C14": ("fault_enumeration",
+         "exhaustive fault enumeration: every (session position x catalogue mutant) through the real main loop, differential against the reference model for the rest of the session",
+         "For 3 valid sessions every position x every mutant of the valid datagram there (all truncations, header octet values, all bits of the first "
+         "11 octets, version nibbles, argument faults, NUL/case variants) is injected through Application.run(); no exception may escape, "
+         "unacceptable datagrams must change nothing and emit nothing, clearly malformed commands must be ignored or answered with a non-zero "
+         "status, and the rest of the session must match the reference model; plus all strings of length <= 5 over a 7-octet alphabet on both "
+         "sockets, every data mutant through Tx/RxMsg.parse_msg (ValueError only) and every single-octet corruption/truncation of a capture file.",
+         "The harness's strict grammar decides what is 'clearly malformed'; unclassifiable inputs are judged for crash-freedom/liveness only.",
+         "DESIGN.md 2/C14", "world+enum"),
 }
 
 PENDING = {}
